@@ -60,6 +60,11 @@ let run g line =
             | Some st -> "ACCEPT " ^ show_state st | None -> "REJECT")
   | "E" -> let ph = (match f.(1) with "G" -> Gamma | "C" -> Claim | _ -> Proof) in
            (match exec g ph (bytes f.(2)) st0 with Some st -> "OK " ^ show_state st | None -> "REJECT")
+  | "DV" -> (match doc_verify (bytes f.(1)) (bytes f.(2)) (bytes f.(3)) with
+            | Some st -> "ACCEPT " ^ show_state st | None -> "REJECT")
+  | "DE" -> let ph = (match f.(1) with "G" -> Gamma | "C" -> Claim | _ -> Proof) in
+           (match doc_exec ph (bytes f.(2)) st0 with Some st -> "OK " ^ show_state st | None -> "REJECT")
+  | "DW" -> b2s (doc_wf (pat_of f.(1)))
   | "F" -> let p = pat_of f.(1) and x = n_of_int (int_of_string f.(2)) in
            b2s (e_fresh p x) ^ b2s (s_fresh p x) ^ b2s (pat_positive p x) ^ b2s (pat_negative p x)
   | "W" -> (match well_formed (pat_of f.(1)) with Some b -> b2s b | None -> "REJECT")
@@ -74,8 +79,13 @@ let run g line =
 
 let () =
   let g = ref guards_sound in
+  let of_bits s = let b i = s.[i] = '1' in
+    { g_ssubst_exists_capture = b 0; g_esubst_mu_capture = b 1; g_ssubst_mu_capture = b 2;
+      g_esubst_exists_capture = b 3; g_inst_constraints = b 4; g_gen_fresh = b 5; g_mp_antecedent = b 6;
+      g_instantiate_arity = b 7; g_publish_claim_eq = b 8; g_evar_plugs_only = b 9 } in
   Array.iteri (fun i a -> if a = "--guards" then
-     g := (match Sys.argv.(i+1) with "pinned" -> guards_pinned | _ -> guards_sound)) Sys.argv;
+     g := (match Sys.argv.(i+1) with "pinned" -> guards_pinned | "sound" -> guards_sound
+           | "evp" -> of_bits "1111111111" | s -> of_bits s)) Sys.argv;
   (try while true do
     let line = input_line stdin in
     if String.trim line <> "" then
